@@ -50,6 +50,20 @@ CONSTANTS = {
 ENUMS = {"puan.Sign.POSITIVE": 1, "puan.Sign.NEGATIVE": -1, "puan.Dtype.BOOL": "bool", "puan.Dtype.INT": "int"}
 
 
+def _transparent_override(P, m, base):
+    """the override only forwards its own parameters to the method it overrides (same decorators, no effects)"""
+    try:
+        if [d for d in m.decorators if d] != [d for d in base.decorators if d] or m.params != base.params:
+            return False
+        T.PROGRAM = P
+        t = T.norm(T.FuncLower(P, m).term())
+        if t[0] != 'ret' or t[2] or t[1][0] != 'call' or t[1][1] != T.G(base.qualname) or t[1][2]:
+            return False
+        return dict(t[1][3]) == {p_: T.V(p_) for p_ in m.params} and len(t[1][3]) == len(m.params)
+    except Exception:
+        return False
+
+
 def obligations(ctx, pid):
     P = ctx.program
     K = ctx.contracts
@@ -91,6 +105,8 @@ def obligations(ctx, pid):
                 continue
             n_checked += 1
             covered = any(k[0] == m.qualname for k in K.refs) or m.qualname in specified
+            if not covered and _transparent_override(P, m, fi):
+                continue            # def m(self, ...): return super().m(...)  - same behaviour
             if not covered:
                 obs.append(Ob(f"E0.override:{m.qualname}", "E0.override", f"{m.file}:{m.node.lineno} {m.qualname}", "violation",
                               f"{m.qualname} overrides the specified method {q} and is not covered by any reference: the behaviour "
